@@ -140,7 +140,7 @@ pub fn run(ctx: &Ctx) -> ! {
          or not) and a fabricated id are looked up by address; all pairs checked with is_ancestor and get_location_from against \
          DAG reachability; non-trivial = some stored segment has a skip list with > 1 entry",
         || case_strategy(40, 1, 2, 1..2),
-        ctx.pick(800, 40_000),
+        ctx.pick(800, 15_000),
         check,
     );
     rep.explore(
@@ -148,7 +148,7 @@ pub fn run(ctx: &Ctx) -> ! {
         "same with <= 300 recipe steps dominated by runs of up to 40 commands delivered in many small transactions (segment counts \
          cross the skip-list thresholds); 500 sampled pairs incl. 200 ancestor pairs",
         || case_strategy(300, 1, 12, 1..2),
-        ctx.pick(48, 2_000),
+        ctx.pick(48, 700),
         check,
     );
     rep.finish()
